@@ -2,6 +2,8 @@
 import json, os
 from lib import vcheck as V
 
+IDS = ["C15"]
+
 RULE = ("behaviours = event sequences (begin / end ok|fail / tick / recycle over call slots) emitted by TLC from Breaker.tla: "
         "BFS emission = one behaviour per transition of the view-reduced state graph (shortest prefix + the step), plus TLC -simulate random walks; "
         "each is replayed on a real circuit.Breaker with every critical section entered in the behaviour's order and compared step by step by TLC; "
